@@ -27,6 +27,76 @@ NONE_TOLERANT = {
     "json.dumps", "copy.copy", "copy.deepcopy", "callable", "getattr", "hasattr", "enumerate", "zip", "any", "all",
     "uuid.uuid1", "uuid.uuid4",
 }
+# standard-library operations that are partial on arbitrary string / number input (documented exceptions; the classes are
+# builtins or mapped to their builtin base so that the hierarchy knows them)
+_VE = ("ValueError",)
+STDLIB_PARTIAL = {
+    "urllib.parse.urlsplit": (_VE, "raises ValueError on an unbalanced or non-IP bracketed host and on hosts that change under NFKC normalisation"),
+    "urllib.parse.urlparse": (_VE, "raises ValueError on an unbalanced or non-IP bracketed host and on hosts that change under NFKC normalisation"),
+    "urllib.parse.urlunsplit": (("TypeError",), "mixed str / bytes components"),
+    "urllib.parse.parse_qs": (_VE, "strict parsing / too many fields"),
+    "urllib.parse.parse_qsl": (_VE, "strict parsing / too many fields"),
+    "urllib.parse.unquote_to_bytes": (("TypeError",), "non-string input"),
+    "ipaddress.ip_address": (_VE, "not an IPv4 / IPv6 address"),
+    "ipaddress.ip_network": (_VE, "not a network"),
+    "ipaddress.ip_interface": (_VE, "not an interface"),
+    "ipaddress.IPv4Address": (_VE, "not an IPv4 address"),
+    "ipaddress.IPv6Address": (_VE, "not an IPv6 address"),
+    "decimal.Decimal": (("ArithmeticError", "TypeError", "ValueError"), "decimal.InvalidOperation on a malformed literal"),
+    "fractions.Fraction": (("ValueError", "ZeroDivisionError", "TypeError"), "malformed literal / zero denominator"),
+    "uuid.UUID": (_VE + ("TypeError", "AttributeError"), "badly formed hexadecimal UUID string"),
+    "base64.b64decode": (_VE + ("TypeError",), "binascii.Error on incorrect padding"),
+    "base64.b32decode": (_VE + ("TypeError",), "binascii.Error"),
+    "base64.b16decode": (_VE + ("TypeError",), "binascii.Error"),
+    "binascii.unhexlify": (_VE + ("TypeError",), "odd-length / non-hexadecimal string"),
+    "binascii.a2b_base64": (_VE + ("TypeError",), "binascii.Error"),
+    "ast.literal_eval": (_VE + ("SyntaxError", "TypeError", "MemoryError", "RecursionError"), "malformed node or string"),
+    "time.strptime": (_VE + ("TypeError",), "format mismatch"),
+    "datetime.datetime": (_VE + ("TypeError", "OverflowError"), "field out of range"),
+    "datetime.date": (_VE + ("TypeError", "OverflowError"), "field out of range"),
+    "datetime.time": (_VE + ("TypeError",), "field out of range"),
+    "datetime.timedelta": (("OverflowError", "TypeError"), "magnitude out of range"),
+    "datetime.datetime.fromtimestamp": (_VE + ("OverflowError", "OSError", "TypeError"), "timestamp out of range"),
+    "datetime.date.fromordinal": (_VE + ("OverflowError", "TypeError"), "ordinal out of range"),
+    "unicodedata.normalize": (_VE + ("TypeError",), "invalid form / non-string"),
+    "unicodedata.name": (_VE + ("TypeError",), "no such name"),
+    "unicodedata.lookup": (("KeyError", "TypeError"), "undefined character name"),
+    "codecs.decode": (_VE + ("TypeError", "LookupError"), "undecodable input / unknown codec"),
+    "codecs.encode": (_VE + ("TypeError", "LookupError"), "unencodable input / unknown codec"),
+    "math.sqrt": (_VE + ("TypeError",), "math domain error"),
+    "math.log": (_VE + ("TypeError", "ZeroDivisionError"), "math domain error"),
+    "math.log10": (_VE + ("TypeError",), "math domain error"),
+    "math.log2": (_VE + ("TypeError",), "math domain error"),
+    "math.floor": (_VE + ("OverflowError", "TypeError"), "NaN / infinity cannot be converted to an integer"),
+    "math.ceil": (_VE + ("OverflowError", "TypeError"), "NaN / infinity cannot be converted to an integer"),
+    "math.trunc": (_VE + ("OverflowError", "TypeError"), "NaN / infinity cannot be converted to an integer"),
+    "math.exp": (("OverflowError", "TypeError"), "math range error"),
+    "math.pow": (_VE + ("OverflowError", "TypeError"), "math domain / range error"),
+    "math.factorial": (_VE + ("TypeError", "OverflowError"), "negative / non-integral argument"),
+    "math.fsum": (("OverflowError", "TypeError", "ValueError"), "intermediate overflow"),
+    "math.acos": (_VE + ("TypeError",), "math domain error"),
+    "math.asin": (_VE + ("TypeError",), "math domain error"),
+    "math.radians": (("TypeError",), "non-number"),
+    "statistics.mean": (("ValueError", "TypeError"), "StatisticsError on empty data"),
+    "statistics.median": (("ValueError", "TypeError"), "StatisticsError on empty data"),
+    "shlex.split": (_VE, "no closing quotation"),
+    "struct.unpack": (("Exception",), "struct.error"),
+    "re.compile": (("Exception",), "re.error on a malformed pattern"),
+    "email.utils.parsedate_to_datetime": (_VE + ("TypeError",), "unparsable date"),
+    "operator.itemgetter": ((), ""),
+    "lxml.etree.QName": (_VE + ("TypeError",), "invalid tag name"),
+    "lxml.etree.XMLParser": ((), ""),
+    "os.stat": (("OSError",), "file system"),
+    "os.listdir": (("OSError",), "file system"),
+    "os.remove": (("OSError",), "file system"),
+    "io.open": (("OSError",), "file system"),
+    "dateutil.parser.parse": (_VE + ("OverflowError", "TypeError"), "unknown string format"),
+    "dateutil.parser.isoparse": (_VE + ("TypeError",), "not an ISO-8601 string"),
+    "iso8601.parse_date": (("Exception",), "iso8601.ParseError"),
+    "idna.encode": (("UnicodeError", "ValueError"), "idna.IDNAError"),
+    "idna.decode": (("UnicodeError", "ValueError"), "idna.IDNAError"),
+}
+STDLIB_PARTIAL = {k: v for k, v in STDLIB_PARTIAL.items() if v[0]}
 SPEC_OK_INDEX = {0, 1, 2, -1, -2}
 SPEC_OK_KEYS = {"content_rules"}
 # read from the installed rfc3986 2.0.0: Validator.validate raises its four ValidationError subclasses, and
@@ -1593,6 +1663,12 @@ class Domain:
             if bt in (T_STR, T_OPTSTR) and m in ("index",):
                 self.oblige(e, "str.index", ["ValueError"], st, None)
                 return st
+            if m in ("encode", "decode") and bt in (T_STR, T_OPTSTR, "bytes", None):
+                lenient = any(isinstance(self.const(a), str) and self.const(a) in ("ignore", "replace", "backslashreplace", "xmlcharrefreplace", "surrogatepass",
+                                                                                    "surrogateescape", "namereplace") for a in list(args[1:]) + [k.value for k in e.keywords if k.arg == "errors"])
+                if not lenient:
+                    self.oblige(e, f"str.{m}", ["UnicodeError"], st, None, why="a lone surrogate / undecodable byte raises UnicodeError (a ValueError)")
+                return st
             if m in ("join",):
                 for a in args:
                     if self.nullable(a, st):
@@ -1627,6 +1703,10 @@ class Domain:
                 return st
             if name.startswith("lxml.etree.fromstring") or name in ("lxml.etree.XML", "xml.etree.ElementTree.fromstring"):
                 self.oblige(e, name, ["SyntaxError", "ValueError"], st, None)
+                return st
+            if base in STDLIB_PARTIAL:
+                classes, why = STDLIB_PARTIAL[base]
+                self.oblige(e, base, list(classes), st, None, why=why)
                 return st
             short = name.split(".")[-1]
             tolerant = name in NONE_TOLERANT or short in ("debug", "info", "warning", "error", "exception", "getLogger") or "getLogger" in name
